@@ -100,6 +100,19 @@ type S3P struct {
 }
 
 // Belongs-to a soft-delete model (relation join of C08).
+// has-many whose children are soft-deletable (C11: Preload applies the soft-delete scope)
+type Binder struct {
+	ID     uint
+	Name   string
+	Sheets []Sheet
+}
+
+type Sheet struct {
+	ID        uint
+	BinderID  uint
+	DeletedAt gorm.DeletedAt
+}
+
 type Holder struct {
 	ID    uint
 	Name  string
